@@ -18,6 +18,8 @@ func init() {
 	props["C06"] = func(c *Collector, tier string, seed int64) {
 		runRunnerProp(c, "C06", tier, seed)
 		repeatedVariationCases(c)
+		commandTextCases(c)
+		rerunCases(c)
 	}
 	props["C07"] = func(c *Collector, tier string, seed int64) { runRunnerProp(c, "C07", tier, seed) }
 }
@@ -562,5 +564,101 @@ func repeatedVariationCases(col *Collector) {
 			}
 			col.Add(cs)
 		}
+	}
+}
+
+// command TEXT shapes: every command of a task is executed in its turn whatever its text looks like - a leading
+// comment line, several lines, blank lines, a trailing comment, a "#" inside quotes - and its exit status counts
+func commandTextCases(col *Collector) {
+	shapes := []struct{ name, text string }{
+		{"leading-comment-line", "# check the result\necho %s >> %s\nexit %d"},
+		{"trailing-comment", "echo %s >> %s # done\nexit %d"},
+		{"blank-lines", "\n\necho %s >> %s\n\nexit %d\n"},
+		{"hash-in-quotes", "echo %s >> %s; echo '# not a comment' > /dev/null; exit %d"},
+		{"comment-then-blank", "#!/bin/sh\n\n  # indented comment\necho %s >> %s; exit %d"},
+		{"continuation", "echo %s \\\n  >> %s\nexit %d"},
+	}
+	for _, sh := range shapes {
+		for _, failAt := range []int{-1, 1} {
+			for _, allow := range []bool{false, true} {
+				trace := newTracePath()
+				t := task.NewTask()
+				t.Name = "shape"
+				t.AllowFailure = allow
+				for j := 0; j < 3; j++ {
+					st := 0
+					if j == failAt {
+						st = 3
+					}
+					t.Commands = append(t.Commands, fmt.Sprintf(sh.text, fmt.Sprintf("c%d", j), trace, st))
+				}
+				t.After = []string{fmt.Sprintf("echo after >> %s", trace)}
+				want := []string{"c0", "c1", "c2", "after"}
+				wantErr := false
+				if failAt >= 0 && !allow {
+					want, wantErr = []string{"c0", "c1"}, true
+				}
+				cs := Case{Replay: fmt.Sprintf("three commands written as %s, command %d exits 3 (-1: none), allow_failure=%v", sh.name, failAt, allow), Tags: []string{"command-text", sh.name}, NonTrivial: true}
+				r, err := runner.NewTaskRunner()
+				if err != nil {
+					cs.Fail, cs.Sig = err.Error(), "runner-panic"
+					col.Add(cs)
+					continue
+				}
+				r.Stdout, r.Stderr = devNull{}, devNull{}
+				rerr := r.Run(t)
+				got := readTrace(trace)
+				os.Remove(trace)
+				cs.Impl = fmt.Sprintf("%s|err=%v", strings.Join(got, ","), rerr != nil)
+				if strings.Join(got, ",") != strings.Join(want, ",") || (rerr != nil) != wantErr {
+					cs.Fail, cs.Sig = fmt.Sprintf("commands that ran: %v (error %v), the task definition prescribes %v (error %v)", got, rerr, want, wantErr), "c06-trace"
+				}
+				col.Add(cs)
+			}
+		}
+	}
+}
+
+// the same Task value run again after a run that failed (a watcher re-runs its task, stages share a task): the
+// second run is judged on its own commands, not on what the first one left on the task
+func rerunCases(col *Collector) {
+	for _, allow := range []bool{false, true} {
+		trace := newTracePath()
+		marker := trace + ".marker"
+		t := task.NewTask()
+		t.Name = "again"
+		t.AllowFailure = allow
+		t.Commands = []string{fmt.Sprintf("echo a1 >> %s", trace), fmt.Sprintf("test -f %s", marker), fmt.Sprintf("echo a3 >> %s", trace)}
+		t.Variations = []map[string]string{{"V": "1"}, {"V": "2"}}
+		t.After = []string{fmt.Sprintf("echo after >> %s", trace)}
+		cs := Case{Replay: fmt.Sprintf("a task (2 variations x 3 commands, the second one `test -f marker`) run twice, the marker created in between; allow_failure=%v", allow), Tags: []string{"rerun-after-failure"}, NonTrivial: true}
+		r, err := runner.NewTaskRunner()
+		if err != nil {
+			cs.Fail, cs.Sig = err.Error(), "runner-panic"
+			col.Add(cs)
+			continue
+		}
+		r.Stdout, r.Stderr = devNull{}, devNull{}
+		err1 := r.Run(t)
+		first := strings.Join(readTrace(trace), ",")
+		os.Remove(trace)
+		os.WriteFile(marker, nil, 0644)
+		err2 := r.Run(t)
+		second := strings.Join(readTrace(trace), ",")
+		os.Remove(trace)
+		os.Remove(marker)
+		want1, want1err := "a1", true
+		if allow {
+			want1, want1err = "a1,a3,a1,a3,after", false
+		}
+		want2 := "a1,a3,a1,a3,after"
+		cs.Impl = fmt.Sprintf("first=%s err=%v | second=%s err=%v errored=%v", first, err1 != nil, second, err2 != nil, t.Errored)
+		switch {
+		case first != want1 || (err1 != nil) != want1err:
+			cs.Fail, cs.Sig = fmt.Sprintf("first run: commands %s error %v, expected %s error %v", first, err1, want1, want1err), "c06-trace"
+		case second != want2 || err2 != nil:
+			cs.Fail, cs.Sig = fmt.Sprintf("second run of the same task: commands %s error %v, expected %s and no error", second, err2, want2), "c06-trace"
+		}
+		col.Add(cs)
 	}
 }
